@@ -109,6 +109,11 @@ fn main() {
         programs.push((text, "generated"));
     }
     rep.bump_by("programs.generated", n_gen as u64);
+    let n_grid = if thorough { 1500 } else { 150 };
+    for _ in 0..n_grid {
+        programs.push((rb_harness::gen_prog::grid(&mut rng), "grid"));
+    }
+    rep.bump_by("programs.grid", n_grid as u64);
 
     // compile everything with the real generator
     let mut compiled = vec![];
